@@ -66,6 +66,21 @@ def run(e: Engine, rep: Report):
     q8(e, rep)
     from . import poolorder
     poolorder.run(e, rep, 'Q9')
+    from . import c03
+    rep.rule('Q10', '= C03-R3.1: in-flight test-and-set with no yield point '
+             'in between (an id is dispatched once per announcement, not '
+             'once per dispatcher)')
+    sub = Report(rep.prop, rep.tier, rep.repo)
+    c03.r31(e, sub)
+    for o in sub.obls:
+        rep.add('Q10', o.where, o.text, o.status,
+                (o.what + ' (the second attempt runs before the due time '
+                 'the first one is about to store)') if o.what else '',
+                o.loc, o.witness, o.nontrivial, o.reason)
+    rep.functions |= sub.functions
+    rep.rule('Q11', 'the scheduler compares due times with time.time() '
+             'itself (no slack added to `now`)')
+    q11(e, rep)
     rep.floor('Q2', 3, 'timetable writers')
 
 
@@ -810,3 +825,43 @@ def q8(e: Engine, rep: Report):
                   if pth else None,
                   reason='_add_queued on the normal and the exceptional '
                   'continuation')
+
+
+# -------------------------------------------------------------------- Q11
+def q11(e: Engine, rep: Report):
+    """The scheduler compares due times with the CURRENT time: the `now`
+    handed to _check_ready / _wait_ready is what time.time() returned,
+    nothing added or subtracted.  `now + slack` dispatches every retry that
+    much before the due time the backoff policy chose."""
+    ctx = e.method_ctx(QUEUE, '_run')
+    g = e.build(ctx, raises=lambda b, n, r: set(),
+                inline=common.queue_inline(e), max_depth=3)
+    where = ctx.func.qname
+    rep.functions.add(where)
+    sites = [n for n in g.nodes if n.kind in ('call', 'call_enter') and
+             e.call_name(n) in ('_check_ready', '_wait_ready') and n.ast.args]
+    if not sites:
+        rep.error('anchor vanished: _check_ready(now) / _wait_ready(now) in '
+                  'Queue._run')
+        return
+    for n in sites:
+        rep.evaluations += 1
+        x, fr = common.origin(g, n.ast.args[0], n.frame)
+        # a local assigned several times: every assignment counts
+        vals = [x]
+        if isinstance(x, ast.Name):
+            vals = [a.value for a in walk_own(fr.ctx.func.node)
+                    if isinstance(a, ast.Assign) and any(
+                        isinstance(t, ast.Name) and t.id == x.id
+                        for t in a.targets)] or [x]
+        ok = all(isinstance(v, ast.Call) and
+                 ast.unparse(v.func) in ('time.time', 'time') and
+                 not v.args for v in vals)
+        rep.check(ok, 'Q11', where,
+                  '%s is given the current time' % e.call_name(n),
+                  'the scheduler hands `%s` to %s instead of what '
+                  'time.time() returned: entries are dispatched before '
+                  '(or slept past) the due time the backoff policy chose'
+                  % (', '.join(' '.join(ast.unparse(v).split())
+                               for v in vals)[:70], e.call_name(n)),
+                  loc=n.loc(), reason='now = time.time()')
